@@ -8,6 +8,7 @@ open PdModel.StorageLoad PdModel.PadKey PdModel.Spec
 #print axioms tolerable_extracted
 #print axioms load_max_id_counterexample
 #print axioms prune_storage_eq_cache_partial
+#print axioms load_regions_once_flag
 #print axioms flush_makes_saved_visible
 #print axioms saved_not_deleted_exact_region_backend_partial
 #print axioms stop_keeps_flushed
